@@ -187,9 +187,11 @@ LOGGING_FLAVOURS = ("getitem", "sync_iter") + ASYNC_FLAVOURS
 
 
 class SrcPlan:
-    __slots__ = ("name", "items", "flavour", "suspend", "aclose_suspends", "fresh", "aclose_mode")
+    __slots__ = ("name", "items", "flavour", "suspend", "aclose_suspends", "fresh", "aclose_mode", "falsy")
 
-    def __init__(self, name, items, flavour="list", suspend=(), aclose_suspends=0, fresh=False, aclose_mode=0):
+    def __init__(self, name, items, flavour="list", suspend=(), aclose_suspends=0, fresh=False, aclose_mode=0,
+                 falsy=False):
+        self.falsy = falsy  # the iterator / iterable object tests false (non-empty all the same)
         # 0: coroutine returning None   1: coroutine returning a truthy value
         # 2: plain method returning a hand-written awaitable (closing happens when that is awaited)
         self.aclose_mode = aclose_mode
@@ -208,6 +210,7 @@ class SrcPlan:
             "suspend": list(self.suspend),
             "aclose_suspends": self.aclose_suspends,
             "aclose_mode": self.aclose_mode,
+            "falsy": self.falsy,
         }
 
 
@@ -333,6 +336,9 @@ class SyncIter:
     def __init__(self, src):
         self.src = src
 
+    def __bool__(self):
+        return not self.src.plan.falsy
+
     def __iter__(self):
         return self
 
@@ -414,6 +420,9 @@ class AIterCls:
     def __init__(self, src):
         self.src = src
 
+    def __bool__(self):
+        return not self.src.plan.falsy
+
     def __aiter__(self):
         return self
 
@@ -476,6 +485,9 @@ class AIterNoClose:
     def __init__(self, src):
         self.src = src
 
+    def __bool__(self):
+        return not self.src.plan.falsy
+
     def __aiter__(self):
         return self
 
@@ -515,6 +527,9 @@ class AIterable:
 
     def __init__(self, src):
         self.src = src
+
+    def __bool__(self):
+        return not self.src.plan.falsy
 
     def __aiter__(self):
         self.src.n_iters += 1
